@@ -1,6 +1,10 @@
 //! `hv <property> <tier> <seed> <cases-file> <stats-file>`: run the real Humphrey code on generated
 //! cases and write one line per case (`fn<TAB>args...<TAB>impl-output`) for the Lean driver.
 mod common;
+mod c10;
+mod c16;
+mod c17;
+mod c18a; // C18: percent-encoding + Base64 half
 mod c02;
 mod c05;
 mod c07;
@@ -12,6 +16,10 @@ fn exec(prop: &str, f: &[String]) -> Option<String> {
         "C02" => c02::exec(f),
         "C05" => c05::exec(f),
         "C07" => c07::exec(f),
+        "C18" => c18a::exec(f), // C18: percent-encoding + Base64 half
+        "C17" => c17::exec(f),
+        "C16" => c16::exec(f),
+        "C10" => c10::exec(f),
         _ => None,
     }
 }
@@ -54,6 +62,10 @@ fn main() {
         "C02" => c02::gen(&mut out, thorough, seed),
         "C05" => c05::gen(&mut out, thorough, seed),
         "C07" => c07::gen(&mut out, thorough, seed),
+        "C18" => c18a::gen(&mut out, thorough, seed), // C18: percent-encoding + Base64 half
+        "C17" => c17::gen(&mut out, thorough, seed),
+        "C16" => c16::gen(&mut out, thorough, seed),
+        "C10" => c10::gen(&mut out, thorough, seed),
         other => {
             eprintln!("unknown property {}", other);
             std::process::exit(2);
